@@ -53,12 +53,12 @@ P = {
  "C15": dict(engine="E4", technique="exhaustive fault-sequence enumeration: every write call x every short count / failure, every truncation offset x read limit x one error at every read call; 1, 2 and (short encodings) 3 deviations",
              text="For every object kind, every single deviation (pairs up to 420 / 1600 write calls, triples up to 26 / 72) of the writer from accept-everything and every truncation offset of the reader is executed on the real serializers: complete-or-error, never a panic.",
              note="writers obey the std::io::Write contract", ref="5/C15"),
- "C16": dict(engine="E1", technique="bounded exhaustive enumeration: all chunkings over a chunk alphabet across refills, all operation histories <=3, samplers as functions of all RNG byte patterns",
+ "C16": dict(engine="E1", technique="bounded exhaustive enumeration: all chunkings over a chunk alphabet across refills, all operation histories <=3 (scripted entropy) and <=2 / <=3 on the library's own entropy path, samplers as functions of all RNG byte patterns",
              text="BlakeRNG output vs. an independent blake3 recomputation under every chunking; freshness of masks/seeds over all histories of length <=3; exact push-forward distribution of the samplers by enumerating their RNG inputs.",
              note="statistical quality beyond these exact statements is out of scope. The samplers are compared pointwise with the reference mapping of the pinned commit first; when the mapping differs (a refactor may read the generator differently) the structure is discovered by probing and the exhaustive families are rebuilt on it (all 2^21 patterns of either half of the binomial sampler, all 2^32 u32 draws of the ternary one); a structure that is not recognised is reported as undecided (exhaustive=false), never as a violation; the byte stream itself is compared with an independent blake3 recomputation", ref="5/C16"),
  "C17": dict(engine="E3", technique="stateless model checking: depth-first enumeration of all thread schedules at the RwLock operations of the three caches (iterated preemption bound) on the real code",
              text="All interleavings of 2-3 threads at every lock acquisition and release (decryption pairs / triples and key-generation pairs unbounded; Galois-key triples, rotation pairs and mixed pairs preemption-bounded, bound stated per scenario in the evidence; 4 threads at bound 2 in the thorough tier) of the secret-key-power caches and the Galois table cache are executed on real OS threads under a cooperative scheduler; each thread's result must equal the sequential result, cache lengths must be monotone, no deadlock.",
-             note="lock-operation granularity; weak memory not modelled (no atomics in the crate)", ref="5/C17"),
+             note="lock-operation granularity; weak memory not modelled (no atomics in the crate). Both assumptions are re-established on the examined tree by section sync_inventory: a shared-state primitive outside the hooked RwLocks (Mutex, atomic, OnceLock, thread_local, static mut ...) makes the run report NOT-EXHAUSTIVE / exhaustive=false, never a violation (seeded change C16-I, DESIGN 6 round 5)", ref="5/C17"),
  "C18": dict(engine="E5", technique="explicit-state BFS over message delivery orders (subset lattice), states materialised by replaying histories on the real protocol objects",
              text="For n=2..3 (4 thorough) every delivery order of every protocol round is explored; canonical states reached by different histories must agree, incomplete parties must refuse to finish, final outputs are checked against the summed key / the plaintext.",
              note="n>=5 only along a covering family (labelled non-exhaustive)", ref="5/C18"),
